@@ -522,15 +522,15 @@ func reportSoloRace(b *Build, bin string, envf func(string) []string, cfg, poolF
 // concDeterminism runs the first n episodes of worker 0 `runs` times under
 // different GOMAXPROCS and compares the traces line by line.
 func concDeterminism(b *Build, bin, poolFile, refFile string, seed uint64, n, runs int) error {
-	var first string
-	for i := 0; i < runs; i++ {
-		gmp := []string{"1", "16", "4"}[i%3]
-		pfx := filepath.Join(b.Scratch, fmt.Sprintf("det-%d", i))
-		env := append(raceEnv(pfx), "GOMAXPROCS="+gmp)
+	trace := func(i int, gmp string) (string, bool) {
+		pfx := filepath.Join(b.Scratch, fmt.Sprintf("det-%d-%s", i, gmp))
+		env := raceEnv(pfx)
+		if gmp != "" {
+			env = append(env, "GOMAXPROCS="+gmp)
+		}
 		r := runWorker(bin, []string{"conc", "-seed", fmt.Sprint(seed), "-worker", "0", "-pool", poolFile, "-ref", refFile, "-from", "0", "-to", fmt.Sprint(n), "-trace"}, env, 10*time.Minute)
 		if r.exit != 0 {
-			// a verdict, not a determinism problem: let the main run report it
-			return nil
+			return "", false // a verdict, not a determinism problem: let the main run report it
 		}
 		var tr []string
 		for _, l := range strings.Split(string(r.stdout), "\n") {
@@ -538,12 +538,33 @@ func concDeterminism(b *Build, bin, poolFile, refFile string, seed uint64, n, ru
 				tr = append(tr, l)
 			}
 		}
-		s := strings.Join(tr, "\n")
-		if i == 0 {
-			first = s
-		} else if s != first {
-			return fmt.Errorf("run %d (GOMAXPROCS=%s) diverged from run 0:\n%s\n--- vs ---\n%s", i, gmp, tail(first, 5), tail(s, 5))
+		return strings.Join(tr, "\n"), true
+	}
+	first, ok := trace(0, "1")
+	if !ok {
+		return nil
+	}
+	for i := 1; i < runs; i++ {
+		gmp := []string{"1", "16", "4"}[i%3]
+		s, ok := trace(i, gmp)
+		if !ok {
+			return nil
 		}
+		if s == first {
+			continue
+		}
+		// The library itself may consult GOMAXPROCS / NumCPU (a bounded worker
+		// pool, say). That is its right; what must hold is that two runs under
+		// the SAME setting are identical.
+		a, ok1 := trace(1000+i, gmp)
+		c, ok2 := trace(2000+i, gmp)
+		if !ok1 || !ok2 {
+			return nil
+		}
+		if a != c {
+			return fmt.Errorf("two runs with GOMAXPROCS=%s diverged from each other:\n%s\n--- vs ---\n%s", gmp, tail(a, 5), tail(c, 5))
+		}
+		fmt.Printf("edsim: note: traces differ between GOMAXPROCS=1 and GOMAXPROCS=%s but are identical for equal settings: the library's behaviour depends on GOMAXPROCS\n", gmp)
 	}
 	return nil
 }
